@@ -11,12 +11,18 @@ from vlib import bench, wb, env
 
 RULE = ("generated CPU-less SoCCore configurations (bus standard wishbone/axi-lite/axi x bus width 32/64 x shared/crossbar x CSR "
         "paging x CSR address width x CSR origin x 1..4 peripherals with generated register sets (storages/statuses 1..70 bit, "
-        "fields) and CSR-mapped memories, fixed csr_map slots, integrated SRAM of generated size) are finalised, exported with "
-        "the real functions (C header, JSON, CSV, SVD, mem header) and SIMULATED: a test bus master writes a unique value "
+        "fields) and CSR-mapped memories, CSR constants, event managers with fixed or allocated interrupt numbers on a CPU-like "
+        "interrupt vector, fixed csr_map slots, integrated SRAM / main RAM / ROM with contents / extra RAMs at generated origins "
+        "and sizes incl. sizes that are no power of two and allocator-placed regions) are finalised, exported with "
+        "the real functions (C header with accessors, JSON, CSV, SVD, mem header, SoC header, linker regions) and SIMULATED: "
+        "a test bus master writes a unique value "
         "through every published writable register's accessor sequence (as the generated C accessors compose it) and the "
         "register's own storage signal must take it while every other storage keeps its value; every status is driven to a "
         "unique value and read through the published address sequence; published memory windows and regions are accessed at "
-        "their first/last word; the four formats must agree; memory images: every source byte must sit at the word and lane a "
+        "their first/last word (all RAMs written first, read back afterwards; ROM against its image); every peripheral's event "
+        "is raised with its enables written through the published registers and the CPU interrupt vector must read exactly "
+        "1 << published number; all formats must agree register by register (address, first bit), region by region, constant by "
+        "constant, interrupt by interrupt; accessor C types must hold the register; memory images: every source byte must sit at the word and lane a "
         "CPU of the stated endianness reads it from; non-trivial = SoC with >= 2 banks, a multi-word register and a non-default "
         "paging or origin; distinct = canonical JSON")
 ASSUMPTIONS = ["Migen's simulator (site-packages) defines FHDL semantics; tracer shim stands in for Migen's byte-code tracer",
@@ -47,14 +53,41 @@ def st_soc(tier):
                 regs.append({"kind": kind, "size": size})
             mem = draw(st.one_of(st.none(), st.none(), st.sampled_from([[32, 8], [32, 16], [8, 16], [16, 8]])))
             slot = draw(st.one_of(st.none(), st.none(), st.integers(4, 12)))
-            periphs.append({"regs": regs, "mem": mem, "slot": slot})
+            ev = draw(st.one_of(st.none(), st.fixed_dictionaries({"n": st.integers(1, 3), "irq": st.one_of(st.none(), st.none(), st.integers(0, 31))})))
+            const = draw(st.one_of(st.none(), st.integers(0, 2 ** 32 - 1)))
+            periphs.append({"regs": regs, "mem": mem, "slot": slot, "ev": ev, "const": const})
         slots = [p["slot"] for p in periphs if p["slot"] is not None]
         if len(set(slots)) != len(slots):
             for p in periphs:
                 p["slot"] = None
+        irqs = [p["ev"]["irq"] for p in periphs if p["ev"] and p["ev"]["irq"] is not None]
+        if len(set(irqs)) != len(irqs):
+            for p in periphs:
+                if p["ev"]:
+                    p["ev"]["irq"] = None
         c["periphs"] = periphs
+        # a CPU-like interrupt input exists and the IRQ handler is enabled (only with at least one interrupt source: finalising
+        # a SoC whose CPU has interrupts but no source at all stops with a ValueError, which is no export matter)
+        c["irq"] = draw(st.integers(0, 3)) != 0 and any(p["ev"] for p in periphs)
+        # further memory regions: main_ram (default origin), rom with contents (only when the CSRs do not sit at 0), and an
+        # extra RAM at a generated origin
+        c["main_ram"] = draw(st.sampled_from([0, 0, 0x100, 0x800, 0x1800]))
+        c["rom"] = draw(st.sampled_from([0, 0x80, 0x1000])) if c["csr_origin"] is not None else 0
+        c["extra"] = draw(st.one_of(st.none(), st.fixed_dictionaries({
+            "origin": st.sampled_from([0x20000000, 0x30000000, 0x50000000, 0x50004000, 0x10000400] +
+                                      ([0x13000, 0x13000] if c["csr_origin"] is None else [0x3000, 0x7000])),
+            "size": st.sampled_from([0x40, 0x400, 0x1000, 0x300])})))
+        # a RAM whose size is no power of two (it decodes a window rounded up to one), added last: placed by the SoC's
+        # allocator (origin None) or just below the extra RAM so that the rounded window would reach it (such a map must be
+        # refused or be truthful)
+        c["extra2"] = draw(st.one_of(st.none(), st.fixed_dictionaries({
+            "size": st.sampled_from([0x300, 0xc00, 0x1800, 0x3000]), "below": st.sampled_from([False, False, False, True])})))
         return c
     return case()
+
+
+def _rom_word(i):
+    return (0x9e3779b9 * (i + 1)) & 0xffffffff
 
 
 def _build(case):
@@ -62,10 +95,15 @@ def _build(case):
     from litex.build.sim import SimPlatform
     from litex.soc.integration.soc_core import SoCCore
     from litex.soc.interconnect import wishbone
-    from litex.soc.interconnect.csr import AutoCSR, CSRStorage, CSRStatus
+    from litex.soc.interconnect.csr import AutoCSR, CSRStorage, CSRStatus, CSRConstant
+    from litex.soc.interconnect.csr_eventmanager import EventManager, EventSourceLevel
+    from migen import Signal
     plat = SimPlatform("SIM", io=[])
-    kwargs = dict(cpu_type=None, with_uart=False, with_timer=False, integrated_rom_size=0, integrated_sram_size=case["sram"],
-                  integrated_main_ram_size=0, bus_standard=case["std"], bus_data_width=case["dw"], bus_interconnect=case["ic"],
+    rom = case.get("rom", 0)
+    kwargs = dict(cpu_type=None, with_uart=False, with_timer=False, integrated_rom_size=rom,
+                  integrated_rom_init=[_rom_word(i) for i in range(rom // 4)] if rom else [],
+                  integrated_sram_size=case["sram"],
+                  integrated_main_ram_size=case.get("main_ram", 0), bus_standard=case["std"], bus_data_width=case["dw"], bus_interconnect=case["ic"],
                   csr_data_width=case["csr_dw"], csr_paging=case["paging"], csr_ordering=case["ordering"], csr_address_width=case["csr_aw"],
                   bus_timeout=64)
     csr_map = {}
@@ -87,6 +125,16 @@ def _build(case):
                 w, d = spec["mem"]
                 self.mem = Memory(w, d, init=[((idx + 1) * 1000003 * (i + 1)) & _m(w) for i in range(d)], name="win")
                 self.specials += self.mem
+            if spec.get("const") is not None:
+                self.k = CSRConstant(spec["const"], name="k")
+            self.triggers = []
+            if spec.get("ev"):
+                self.submodules.ev = EventManager()
+                for ei in range(spec["ev"]["n"]):
+                    src = EventSourceLevel(name="e%d" % ei)
+                    setattr(self.ev, "e%d" % ei, src)
+                    self.triggers.append(src.trigger)
+                self.ev.finalize()
 
     class TB(SoCCore):
         csr_map = {}
@@ -100,6 +148,22 @@ def _build(case):
                 self.mem_map = dict(SoCCore.mem_map)
                 self.mem_map["csr"] = mem_map["csr"]
             SoCCore.__init__(self, plat, int(1e6), **kwargs)
+            if case.get("irq"):
+                # what a CPU brings: an interrupt input vector and an enabled IRQ handler
+                self.cpu.interrupt = Signal(32, name="cpu_interrupt")
+                self.cpu.interrupts = {}
+                self.irq.enable()
+            if case.get("extra"):
+                self.add_ram("extra", origin=case["extra"]["origin"], size=case["extra"]["size"])
+            if case.get("extra2"):
+                size2 = case["extra2"]["size"]
+                origin2 = None
+                if case["extra2"]["below"] and case.get("extra"):
+                    pow2 = 1 << (size2 - 1).bit_length()
+                    o2 = case["extra"]["origin"] // pow2 * pow2
+                    if case["extra"]["origin"] - o2 >= size2:
+                        origin2 = o2
+                self.add_ram("extra2", origin=origin2, size=size2)
             self.periphs = []
             for pi, p in enumerate(case["periphs"]):
                 per = Periph(p, pi)
@@ -107,6 +171,11 @@ def _build(case):
                 self.add_module(name=name, module=per)
                 if p["slot"] is not None:
                     self.csr.add(name, n=p["slot"])
+                if p.get("ev") and case.get("irq"):
+                    if p["ev"]["irq"] is not None:
+                        self.irq.add(name, n=p["ev"]["irq"])
+                    else:
+                        self.irq.add(name)
                 self.periphs.append(per)
             self.tb = wishbone.Interface(data_width=32, address_width=32, addressing="word")
             self.bus.add_master(name="tb", master=self.tb)
@@ -128,15 +197,47 @@ def _parse_header(text):
     sizes = {m.group(1): int(m.group(2)) for m in re.finditer(r"#define (CSR_\w+_SIZE) (\d+)", text)}
     # accessor bodies: sequences of csr_read_simple / csr_write_simple
     funcs = {}
-    for m in re.finditer(r"static inline \w+ (\w+)_(read|write)\(([^)]*)\) \{\n(.*?)\n\}", text, re.S):
-        name, rw, _, body = m.groups()
+    ctypes = {}
+    for m in re.finditer(r"static inline (\w+) (\w+)_(read|write)\(([^)]*)\) \{\n(.*?)\n\}", text, re.S):
+        rt, name, rw, arg, body = m.groups()
+        ctypes[(name, rw)] = rt if rw == "read" else arg.split()[0]
         seq = []
         for a in re.finditer(r"csr_(read|write)_simple\((?:(v(?: >> (\d+))?), )?(?:\(CSR_BASE \+ (0x[0-9a-f]+)L\)|(0x[0-9a-f]+)L)\)", body):
             addr = base + int(a.group(4), 16) if a.group(4) else int(a.group(5), 16)
             seq.append((addr, int(a.group(3) or 0)))
         shifts = [int(x) for x in re.findall(r"r <<= (\d+);", body)]
         funcs[(name, rw)] = (seq, shifts)
+    funcs["ctypes"] = ctypes
     return base, defs, sizes, funcs
+
+
+def _parse_svd(text):
+    """-> (registers {PERIPH: (base, [(name, offset, bit origin or None, owner or None)])}, interrupts {periph: n},
+    memory regions {NAME: (base, size)}, constants {NAME: str})"""
+    import xml.etree.ElementTree as ET
+    root = ET.fromstring(text.split("\n", 1)[1] if text.startswith("<?xml") else text)
+    regs, irqs = {}, {}
+    for per in root.find("peripherals").findall("peripheral"):
+        name = per.findtext("name")
+        base = int(per.findtext("baseAddress"), 16)
+        lst = []
+        for r in per.find("registers").findall("register"):
+            d = r.findtext("description") or ""
+            m = re.match(r"Bits? (\d+)(?:-(\d+))? of `(\w+)`", d)
+            lst.append((r.findtext("name"), int(r.findtext("addressOffset"), 16), int(m.group(1)) if m else None, m.group(3) if m else None))
+        regs[name] = (base, lst)
+        it = per.find("interrupt")
+        if it is not None:
+            irqs[it.findtext("name")] = int(it.findtext("value"))
+    mems, consts = {}, {}
+    ve = root.find("vendorExtensions")
+    mr = ve.find("memoryRegions")
+    if mr is not None:
+        for m_ in mr.findall("memoryRegion"):
+            mems[m_.findtext("name")] = (int(m_.findtext("baseAddress"), 16), int(m_.findtext("size"), 16))
+    for c in ve.find("constants").findall("constant"):
+        consts[c.get("name")] = c.get("value")
+    return regs, irqs, mems, consts
 
 
 def _k(case, base):
@@ -145,6 +246,96 @@ def _k(case, base):
     if case["ordering"] == "little":
         return "c14:csr-ordering-little"
     return base
+
+
+def _acc_pairs(name, r, hfuncs, busword):
+    """(address, first bit of the register held there) as the generated accessors compose the register; registers wider
+    than 64 bit have no accessor: most significant word first from the published address and size."""
+    if (name, "write") in hfuncs and hfuncs[(name, "write")][0]:
+        return sorted(hfuncs[(name, "write")][0])
+    if (name, "read") in hfuncs and hfuncs[(name, "read")][0]:
+        seq, shifts = hfuncs[(name, "read")]
+        return sorted((a, sum(shifts[i:])) for i, (a, _) in enumerate(seq))
+    return sorted((r["addr"] + 4 * i, (r["size"] - 1 - i) * busword) for i in range(r["size"]))
+
+
+def _formats_more(case, soc, js, hdr, csv, hdefs, hfuncs, cls):
+    """SVD, mem header, SoC header, linker regions against the JSON (whose addresses the simulation then visits)."""
+    from litex.soc.integration import export
+    busword = case["csr_dw"]
+    svd_regs, svd_irqs, svd_mems, svd_consts = _parse_svd(export.get_csr_svd(soc, description="x"))
+    # -- registers: every (address, bit origin) pair of the SVD must be the one the accessors use
+    for name, r in js["csr_registers"].items():
+        per = next((b for b in sorted(js["csr_bases"], key=len, reverse=True) if name.startswith(b + "_")), None)
+        if per is None or per.upper() not in svd_regs:
+            return bad("formats", "register %s: no SVD peripheral for it" % name, key="c14:formats-svd", cls=cls)
+        base, lst = svd_regs[per.upper()]
+        short = name[len(per) + 1:]
+        if r["size"] == 1:
+            got = sorted((base + off, 0) for (n_, off, org, owner) in lst if n_ == short.upper() and owner is None)
+        else:
+            got = sorted((base + off, org) for (n_, off, org, owner) in lst if owner == name.upper())
+        want = _acc_pairs(name, r, hfuncs, busword)
+        if got != want:
+            return bad("formats", "register %s: SVD places it at %s (address, first bit), header/JSON at %s" %
+                       (name, [(hex(a), o) for a, o in got], [(hex(a), o) for a, o in want]), key=_k(case, "c14:formats-svd"), cls=cls)
+    for name, b in js["csr_bases"].items():
+        if name.upper() in svd_regs and svd_regs[name.upper()][0] != b:
+            return bad("formats", "bank %s: SVD baseAddress %#x, JSON %#x" % (name, svd_regs[name.upper()][0], b), key="c14:formats-svd", cls=cls)
+    # -- memory regions
+    memh = export.get_mem_header(soc.mem_regions)
+    ld = export.get_linker_regions(soc.mem_regions)
+    for name, m in js["memories"].items():
+        hb = re.search(r"#define %s_BASE (0x[0-9a-f]+)L" % name.upper(), memh)
+        hs = re.search(r"#define %s_SIZE (0x[0-9a-f]+)" % name.upper(), memh)
+        if not hb or not hs or int(hb.group(1), 16) != m["base"] or int(hs.group(1), 16) != m["size"]:
+            return bad("formats", "region %s: mem header says %s/%s, JSON base %#x size %#x" %
+                       (name, hb.group(1) if hb else None, hs.group(1) if hs else None, m["base"], m["size"]), key="c14:formats-mem", cls=cls)
+        mm = re.search(r"^memory_region,%s,(0x[0-9a-f]+),(\d+),(\S+)$" % re.escape(name), csv, re.M)
+        if not mm or int(mm.group(1), 16) != m["base"] or int(mm.group(2)) != m["size"] or mm.group(3) != m["type"]:
+            return bad("formats", "region %s: CSV line %r disagrees with JSON %r" % (name, mm.group(0) if mm else None, m), key="c14:formats-mem", cls=cls)
+        if svd_mems.get(name.upper()) != (m["base"], m["size"]):
+            return bad("formats", "region %s: SVD says %r, JSON base %#x size %#x" % (name, svd_mems.get(name.upper()), m["base"], m["size"]), key="c14:formats-mem", cls=cls)
+        ml = re.search(r"^\t%s : ORIGIN = (0x[0-9a-f]+), LENGTH = (0x[0-9a-f]+)$" % re.escape(name), ld, re.M)
+        if not ml or int(ml.group(1), 16) != m["base"] or int(ml.group(2), 16) != m["size"]:
+            return bad("formats", "region %s: linker regions say %r, JSON base %#x size %#x" % (name, ml.group(0) if ml else None, m["base"], m["size"]), key="c14:formats-mem", cls=cls)
+    if set(svd_mems) != {n.upper() for n in js["memories"]}:
+        return bad("formats", "SVD memory regions %r, JSON %r" % (sorted(svd_mems), sorted(js["memories"])), key="c14:formats-mem", cls=cls)
+    # -- constants
+    soch = export.get_soc_header(soc.constants)
+    for name, v in js["constants"].items():
+        if name.upper() not in svd_consts or svd_consts[name.upper()].lower() != str(v).lower():
+            return bad("formats", "constant %s: SVD %r, JSON %r" % (name, svd_consts.get(name.upper()), v), key="c14:formats-const", cls=cls)
+        mm = re.search(r"^constant,%s,(.*),,$" % re.escape(name), csv, re.M)
+        if not mm or mm.group(1) != str(v):
+            return bad("formats", "constant %s: CSV %r, JSON %r" % (name, mm.group(0) if mm else None, v), key="c14:formats-const", cls=cls)
+        if v is None:
+            ok_ = re.search(r"^#define %s$" % name.upper(), soch, re.M) is not None
+        elif isinstance(v, str):
+            ok_ = re.search(r'^#define %s "%s"$' % (name.upper(), re.escape(v)), soch, re.M | re.I) is not None
+        else:
+            ok_ = re.search(r"^#define %s %d$" % (name.upper(), v), soch, re.M) is not None
+        if not ok_:
+            mm = re.search(r"^#define %s\b.*$" % name.upper(), soch, re.M)
+            return bad("formats", "constant %s: soc.h has %r, JSON %r" % (name, mm.group(0) if mm else None, v), key="c14:formats-const", cls=cls)
+    # -- constants that describe the build
+    want = {"config_bus_data_width": case["dw"], "config_bus_standard": case["std"].replace("-", "").lower()}
+    for name, w in want.items():
+        g = js["constants"].get(name)
+        if (g.replace("-", "") if isinstance(g, str) else g) != w:
+            return bad("constants", "%s = %r, SoC built with %r" % (name.upper(), g, w), key="c14:constants", cls=cls)
+    for pi, p_ in enumerate(case["periphs"]):
+        if p_.get("const") is not None and js["constants"].get("p%d_k" % pi) != p_["const"]:
+            return bad("constants", "CSRConstant p%d.k = %#x published as %r" % (pi, p_["const"], js["constants"].get("p%d_k" % pi)), key="c14:constants", cls=cls)
+    # -- interrupt numbers: SVD against the constants (the hardware line is checked in the simulation)
+    for pi, p_ in enumerate(case["periphs"]):
+        if p_.get("ev") and case.get("irq"):
+            cn = js["constants"].get("p%d_interrupt" % pi)
+            if cn is None or svd_irqs.get("p%d" % pi) != cn:
+                return bad("formats", "interrupt of p%d: constant %r, SVD %r" % (pi, cn, svd_irqs.get("p%d" % pi)), key="c14:formats-irq", cls=cls)
+            if p_["ev"]["irq"] is not None and cn != p_["ev"]["irq"]:
+                return bad("constants", "p%d asked for interrupt %d, published %r" % (pi, p_["ev"]["irq"], cn), key="c14:irq", cls=cls)
+    return None
 
 
 def run_soc(case):
@@ -180,6 +371,9 @@ def run_soc(case):
             return bad("formats", "bank %s: JSON base %#x, header %r" % (name, b, hdefs.get("CSR_%s_BASE" % name.upper())), key="c14:formats", cls=cls)
     if js["constants"].get("config_csr_data_width") != case["csr_dw"]:
         return bad("constants", "CONFIG_CSR_DATA_WIDTH = %r, SoC built with %d" % (js["constants"].get("config_csr_data_width"), case["csr_dw"]), key="c14:constants", cls=cls)
+    r_ = _formats_more(case, soc, js, hdr, csv, hdefs, hfuncs, cls)
+    if r_ is not None:
+        return r_
     # ---- plan of bus accesses from the PUBLISHED information only
     busword = case["csr_dw"]
     objs = {}       # published name -> CSR object
@@ -188,7 +382,7 @@ def run_soc(case):
             for c in region.obj:
                 objs[rname + "_" + c.name] = c
     storages = [(n, o) for n, o in objs.items() if isinstance(o, CSRStorage)]
-    statuses = [(n, o) for n, o in objs.items() if isinstance(o, CSRStatus) and re.match(r"p\d+_", n)]   # only statuses the bench may drive
+    statuses = [(n, o) for n, o in objs.items() if isinstance(o, CSRStatus) and re.match(r"p\d+_r\d+$", n)]   # only statuses the bench may drive
     ops = []
     plan = []       # (kind, name, value, op indices)
     k = 0
@@ -197,9 +391,15 @@ def run_soc(case):
         v = ((case["seed"] + 17) * 2654435761 * (n + 3) + 0x5a5a5a5a5a5a5a5a5a) & _m(size)
         return v or 1
 
+    cbits = {"uint8_t": 8, "uint16_t": 16, "uint32_t": 32, "uint64_t": 64}
+    for (name, rw), ct in hfuncs["ctypes"].items():
+        if name in objs and cbits.get(ct, 0) < objs[name].size:
+            return bad("accessor-type", "%s_%s() uses %s for a %d-bit register" % (name, rw, ct, objs[name].size), key="c14:accessor-type", cls=cls)
     for n, (name, o) in enumerate(storages):
         r = js["csr_registers"][name]
         val = uniq(n, o.size)
+        if name.endswith("_ev_enable"):
+            val = _m(o.size)
         idx = []
         acc = hfuncs.get((name, "write"))
         if acc:
@@ -235,19 +435,48 @@ def run_soc(case):
                 idx = [len(ops)]
                 ops.append({"we": 0, "adr": (base >> 2) + word * per, "dat": 0, "sel": 15, "gap": 1})
                 plan.append(("csrmem", rname, (mem, word), idx))
-    sram = js["memories"].get("sram")
-    if sram:
-        for word, val in ((0, 0x11223344), (sram["size"] // 4 - 1, 0xa1b2c3d4)):
-            i0 = len(ops)
-            ops.append({"we": 1, "adr": (sram["base"] >> 2) + word, "dat": val, "sel": 15, "gap": 1})
-            ops.append({"we": 0, "adr": (sram["base"] >> 2) + word, "dat": 0, "sel": 15, "gap": 1})
-            plan.append(("sram", "sram", (word, val), [i0, i0 + 1]))
+    # published memory regions: every RAM gets a unique value at its first and last word, all written first and read back
+    # afterwards (two regions answering from the same memory, or a region answering outside its window, then show)
+    rams = [(n_, m_) for n_, m_ in js["memories"].items() if n_ in ("sram", "main_ram", "extra", "extra2")]
+    wr = []
+    for ri, (rname, m_) in enumerate(rams):
+        for wi, word in enumerate((0, m_["size"] // 4 - 1)):
+            val = (0x11223344 + 0x01010101 * (2 * ri + wi) * 7) & 0xffffffff
+            wr.append((rname, m_, word, val, len(ops)))
+            ops.append({"we": 1, "adr": (m_["base"] >> 2) + word, "dat": val, "sel": 15, "gap": 1})
+    for rname, m_, word, val, iw in wr:
+        plan.append(("region", rname, (word, val, m_), [iw, len(ops)]))
+        ops.append({"we": 0, "adr": (m_["base"] >> 2) + word, "dat": 0, "sel": 15, "gap": 1})
+    romr = js["memories"].get("rom")
+    if romr and case.get("rom"):
+        for word in (0, romr["size"] // 4 - 1):
+            plan.append(("rom", "rom", (word, _rom_word(word), romr), [len(ops)]))
+            ops.append({"we": 0, "adr": (romr["base"] >> 2) + word, "dat": 0, "sel": 15, "gap": 1})
     master = wb.WBMaster(soc.tb, ops, max_wait=400)
     drive = {o.status: status_vals[n] for n, o in statuses}
-    drv = bench.Driver(lambda t: drive)
+    # interrupt lines: once the bus accesses are over (all event enables written), the event sources of one peripheral
+    # at a time are raised and the CPU-side interrupt vector is sampled
+    irqp = [(pi, soc.periphs[pi]) for pi, p_ in enumerate(case["periphs"]) if p_.get("ev") and case.get("irq")]
+    t0 = {"t": None}
+
+    def drv_fn(t):
+        d = dict(drive)
+        if irqp:
+            if t0["t"] is None and master.finished():
+                t0["t"] = t
+            for j, (pi, per) in enumerate(irqp):
+                on = t0["t"] is not None and t0["t"] + 8 * j + 1 <= t <= t0["t"] + 8 * j + 6
+                for k_, trg in enumerate(per.triggers):
+                    d[trg] = int(on and k_ == len(per.triggers) - 1)
+        return d
+    drv = bench.Driver(drv_fn)
     probe = bench.Probe([o.storage for _, o in storages])
-    limit = 300 + 60 * len(ops)
-    cyc = bench.run(soc, [master, drv, probe], limit, stop=lambda t: master.finished())
+    agents = [master, drv, probe]
+    if irqp:
+        iprobe = bench.Probe([soc.cpu.interrupt])
+        agents.append(iprobe)
+    limit = 300 + 60 * len(ops) + 8 * len(irqp) + 20
+    cyc = bench.run(soc, agents, limit, stop=lambda t: master.finished() and (not irqp or (t0["t"] is not None and t > t0["t"] + 8 * len(irqp) + 4)))
     ctx = "SoC(%s %d-bit %s, csr paging %#x origin %#x)" % (case["std"], case["dw"], case["ic"], case["paging"], csr_base)
     if master.aborted or not master.finished():
         i = master.aborted[0][0] if master.aborted else master.i
@@ -260,7 +489,14 @@ def run_soc(case):
             kind, name = next(((p[0], p[1]) for p in plan if i in p[3]), ("?", "?"))
             return bad("bus-error", "%s: access to published %s %s (%#x) answered with a bus error" % (ctx, kind, name, ops[i]["adr"] << 2),
                        key=_k(case, "c14:bus-error"), cls=cls, cycles=cyc)
-    final = probe.trace[-1]
+    for j, (pi, per) in enumerate(irqp):
+        loc = js["constants"]["p%d_interrupt" % pi]
+        for c_ in (t0["t"] + 8 * j + 4, t0["t"] + 8 * j + 5):
+            if c_ < len(iprobe.trace) and iprobe.trace[c_][0] != 1 << loc:
+                return bad("interrupt", "%s: event of p%d raised (all its events enabled through the published registers): published "
+                           "interrupt number %d, CPU interrupt vector reads %#x" % (ctx, pi, loc, iprobe.trace[c_][0]),
+                           key="c14:irq", cls=cls, cycles=cyc)
+    final = probe.trace[len(probe.trace) - 1 if not irqp else min(t0["t"], len(probe.trace) - 1)]
     expected_final = {}
     multi = False
     for kind, name, val, idx in plan:
@@ -286,8 +522,9 @@ def run_soc(case):
             o = objs[name]
             acc = hfuncs.get((name, "read"))
             got = 0
+            shifts = acc[1] if acc else [busword] * (len(idx) - 1)
             for n_, i in enumerate(idx):
-                got = (got << busword) | (res[i][0] & _m(busword)) if n_ else (res[i][0] & _m(busword))
+                got = (got << shifts[n_ - 1]) | (res[i][0] & _m(busword)) if n_ else (res[i][0] & _m(busword))
             if got != val:
                 return bad("register-read", "%s: %d-bit status %s published at %#x: hardware holds %#x, the accessor sequence reads %#x" %
                            (ctx, o.size, name, js["csr_registers"][name]["addr"], val, got), key=_k(case, "c14:register-read"), cls=cls, cycles=cyc)
@@ -301,13 +538,19 @@ def run_soc(case):
             if (res[idx[0]][0] & _m(min(busword, mem.width))) != (exp_word & _m(min(busword, mem.width))):
                 return bad("memory-window", "%s: CSR memory %s published at %#x: word %d reads %#x, memory holds %#x" %
                            (ctx, name, js["csr_bases"][name], word, res[idx[0]][0], exp), key=_k(case, "c14:memory-window"), cls=cls, cycles=cyc)
-        else:
-            word, v = val
+        elif kind == "region":
+            word, v, m_ = val
             if res[idx[1]][0] != v:
-                return bad("region", "%s: region sram published at %#x size %#x: word %d written %#x reads back %#x" %
-                           (ctx, sram["base"], sram["size"], word, v, res[idx[1]][0]), key=_k(case, "c14:region"), cls=cls, cycles=cyc)
+                return bad("region", "%s: region %s published at %#x size %#x: word %d written %#x reads back %#x" %
+                           (ctx, name, m_["base"], m_["size"], word, v, res[idx[1]][0]), key=_k(case, "c14:region"), cls=cls, cycles=cyc)
+        elif kind == "rom":
+            word, v, m_ = val
+            if res[idx[0]][0] != v:
+                return bad("region", "%s: region rom published at %#x size %#x: word %d reads %#x, the image holds %#x" %
+                           (ctx, m_["base"], m_["size"], word, res[idx[0]][0], v), key=_k(case, "c14:region"), cls=cls, cycles=cyc)
     nbanks = len(js["csr_bases"])
     nt = nbanks >= 2 and multi and (case["paging"] != 0x800 or case["csr_origin"] is not None)
+    cls = cls + (["irq:%d" % len(irqp)] if irqp else []) + ["regions:%d" % (len(rams) + (1 if romr and case.get("rom") else 0))]
     return ok(nt=nt, cls=cls + (["multi-word"] if multi else []) + (["csr-memory"] if mems or any(p[0] == "csrmem" for p in plan) else []), cycles=cyc)
 
 
